@@ -21,7 +21,7 @@ struct Hist {
 struct C04 : Check {
 	const char *id() const override { return "C04"; }
 	std::string rule() const override {
-		return "histories (<= 60 steps, 1-2 buffers) of modifying commands mixed with u, ^R, :u, :redo in 'vi -s -e' and 'vi -v': ex a i c d pu s g v r and N,M!filter, vi x X dd dw D p P J r ~ o O i a A cw >> << !}filter "
+		return "histories (<= 60 steps, now and then 125..200 edits followed by a deep unwind; ruler on and off; 1-2 buffers) of modifying commands mixed with u, ^R, :u, :redo in 'vi -s -e' and 'vi -v': ex a i c d pu s g v r and N,M!filter, vi x X dd dw D p P J r ~ o O i a A cw >> << !}filter "
 			"with counts, '.', multi-line inserts, globals with multi-line effects, filters through simulated children (random pacing, small pipes, stalls, fork failure, children that exit early), :e! reload. "
 			"Oracle: after undo the text equals the snapshot before the most recent not-yet-undone modifying command; redo reinstates what undo removed; a new edit discards the redo branch; "
 			"undo/redo at the ends change nothing; every command (however many lines or sub-edits) is exactly one step. Commands without net text change fork the model (with / without a hidden step); "
@@ -117,6 +117,9 @@ struct C04 : Check {
 		Rng r(seed * 0x9e3779b97f4a7c15ull + 0xC04);
 		bool vi = r.chance(1, 2);
 		Plan p = base_plan("C04", seed, vi ? "vi" : "exs");
+		// (the ruler calls lbuf_modified() after every command, which also closes the undo step: without it
+		// the vi main loop alone must do that)
+		if (vi && r.chance(1, 3)) { p.env.clear(); p.env.push_back({"EXINIT", "se ru=0"}); }
 		p.rows = (int) r.range(5, 30); p.cols = (int) r.range(20, 100);
 		G g(r, p, vi);
 		FileSpec f; f.path = "F"; f.mtime = -100;
@@ -148,6 +151,19 @@ struct C04 : Check {
 			g.ex("$a\n" + g.word() + "\n.");
 			g.ex("u", "undo"); g.ex("u", "undo"); g.ex("redo", "redo"); g.ex("redo", "redo");
 			nsteps = 3;
+		}
+		if (r.chance(1, tier ? 25 : 40)) {
+			// a long history: more records than the history table holds at first (it grows at 128),
+			// then an unwind deep enough to reach records made before the growth, and back
+			int n = (int) r.range(125, 200);
+			p.variant = "long-history-" + std::to_string(n);
+			for (int i = 0; i < n; i++) { if (vi) g.keys("o" + g.word() + "\x1b"); else g.ex("$a\n" + g.word() + "\n."); }
+			int back = (int) r.range(n - 130 > 0 ? n - 130 : 1, n);
+			for (int j = 0; j < back; j++) { if (vi) g.keys("u", "undo"); else g.ex("u", "undo"); }
+			int fwd = (int) r.range(1, back);
+			for (int j = 0; j < fwd; j++) { if (vi) g.keys("\x12", "redo"); else g.ex("redo", "redo"); }
+			since_mod += n;
+			nsteps = (int) r.range(0, 6);
 		}
 		for (int i = 0; i < nsteps; i++) {
 			int k = r.weighted({50, 22, 10, 8, 3, 3});
